@@ -53,6 +53,8 @@ SLICE_EDITS = (
     ("index", 2),
 )
 IT_EDITS = (
+    ("calc", "w", ("add", spaces.C_ONLY_SQL, L(1))),
+    ("sel", ("gt", ("add", spaces.C_ONLY_SQL, L(1)), L(0))),
     ("chain", ("L2", ("proj", ("a",)))),
     ("chain", ("L2", ("calc", "w", ("neg", R("a"))))),
     ("sel", spaces.P_ONLY_SQL),
@@ -60,6 +62,7 @@ IT_EDITS = (
     S((spaces.C_ONLY_SQL, True)),
 )
 SQL_EDITS = (
+    ("calc", "w", ("add", spaces.C_ONLY_IT, L(1))),
     ("chain", ("K",)),
     ("chain", ("Y", ("proj", ("a",)))),
     ("join", ("K",), Q_GT_0, False),
